@@ -408,3 +408,32 @@ ENTRIES += [
     M("C20-stance-swing-swapped", "C20", "C20.4", (GG, "    return jnp.where(x <= 0.5, stance, swing)", "    return jnp.where(x <= 0.5, swing, stance)")),
     V("C20-v-phase-commute", "C20", (GG, "    phase_increment = 2 * jnp.pi * frequency * dt", "    phase_increment = dt * frequency * jnp.pi * 2")),
 ]
+
+MC = "lerax/env/classic_control/mountain_car.py"
+CMC = "lerax/env/classic_control/continuous_mountain_car.py"
+ACR = "lerax/env/classic_control/acrobot.py"
+PEN = "lerax/env/classic_control/pendulum.py"
+CP = "lerax/env/classic_control/cartpole.py"
+ANT = "lerax/env/mujoco/ant.py"
+HOP = "lerax/env/mujoco/hopper.py"
+HUM = "lerax/env/mujoco/humanoid.py"
+
+ENTRIES += [
+    # ---------------------------------------------------------------- C02
+    M("C02-mc-noclip", "C02", "C02.1", (MC, "        v = jnp.clip(v, -self.max_speed, self.max_speed)\n        x = jnp.clip(x, self.min_position, self.max_position)\n        v = v * (", "        x = jnp.clip(x, self.min_position, self.max_position)\n        v = v * (")),
+    M("C02-mc-space-half", "C02", "C02.1", (MC, "        self.high = jnp.array([self.max_position, self.max_speed])", "        self.high = jnp.array([self.max_position, self.max_speed / 2])")),
+    M("C02-acrobot-noclip-vel", "C02", "C02.1", (ACR, "        joint_vel_2 = jnp.clip(joint_vel_2, -self.max_vel_2, self.max_vel_2)", "        joint_vel_2 = jnp.clip(joint_vel_2, -self.max_vel_1, self.max_vel_1)")),
+    M("C02-pendulum-nowrap", "C02", "C02.1", (PEN, "        theta_dot = jnp.clip(theta_dot, -self.max_speed, self.max_speed)\n        return jnp.array([theta, theta_dot])", "        return jnp.array([theta, theta_dot])")),
+    M("C02-cartpole-threshold-misaligned", "C02", "C02.1", (CP, "                self.x_threshold * 2,\n                jnp.inf,\n                self.theta_threshold_radians * 2,", "                self.theta_threshold_radians * 2,\n                jnp.inf,\n                self.x_threshold * 2,")),
+    M("C02-acrobot-reward-bool", "C02", "C02.2", (ACR, "        return done_angle.astype(float) - 1.0", "        return done_angle")),
+    M("C02-mc-reward-int", "C02", "C02.2", (MC, "        return jnp.array(-1.0)", "        return jnp.array(-1)")),
+    M("C02-terminal-float", "C02", "C02.2", (PEN, "    def terminal(self, state: PendulumState, *, key: Key[Array, \"\"]) -> Bool[Array, \"\"]:\n        return jnp.array(False)", "    def terminal(self, state: PendulumState, *, key: Key[Array, \"\"]) -> Bool[Array, \"\"]:\n        return jnp.array(0.0)")),
+    M("C02-module-counter", "C02", "C02.3", (MC, "class MountainCarState(", "_STEPS = []\n\n\nclass MountainCarState("), (MC, "        x, x_d = y\n        u = (action - 1) * self.force", "        _STEPS.append(1)\n        x, x_d = y\n        u = (action - 1) * self.force")),
+    M("C02-time-in-reward", "C02", "C02.3", (PEN, "        theta, theta_dot = next_state.y\n        u = jnp.clip", "        import time\n        theta, theta_dot = next_state.y + 0 * time.time()\n        u = jnp.clip")),
+    M("C02-attr-cache", "C02", "C02.3", (CP, "        x, theta = state.y[0], state.y[2]\n        within_x", "        x, theta = state.y[0], state.y[2]\n        object.__setattr__(self, \"_last\", x)\n        within_x")),
+    M("C02-dynamic-branch", ["C02"], "C02.3", (MC, "        x, v = state.y\n        return (x >= self.goal_position) & (v >= self.goal_velocity)", "        x, v = state.y\n        if x < self.min_position:\n            return jnp.array(False)\n        return (x >= self.goal_position) & (v >= self.goal_velocity)")),
+    M("C02-obs-size-no-exclude", "C02", "C02.4", (ANT, "        obs_size -= 2 if self.exclude_current_positions_from_observation else 0\n", "")),
+    M("C02-obs-size-flag-swapped", "C02", "C02.4", (HUM, "        obs_size += cvel_size if self.include_cvel_in_observation else 0", "        obs_size += cvel_size if self.include_cinert_in_observation else 0")),
+    M("C02-hopper-skip-2", "C02", "C02.4", (HOP, "            position = position[1:]", "            position = position[2:]")),
+    V("C02-v-clip-order", "C02", (MC, "        v = jnp.clip(v, -self.max_speed, self.max_speed)\n        x = jnp.clip(x, self.min_position, self.max_position)", "        x = jnp.clip(x, self.min_position, self.max_position)\n        v = jnp.clip(v, -self.max_speed, self.max_speed)")),
+]
